@@ -1,4 +1,4 @@
-//go:build verif && verif_e2e
+//go:build verif && (verif_e2e || verif_conc)
 
 package main
 
